@@ -418,7 +418,8 @@ func redactPipelineStage(stage interface{}, redactFieldNames bool, keyPath []str
 						}
 						newMap.Set(redactedKey, newPipelineMap)
 					} else {
-						newMap.Set(redactedKey, v)
+						// neither a pipeline nor a map of pipelines: redact it below
+						break
 					}
 					continue
 				case OperatorArray:
@@ -498,8 +499,11 @@ func redactPipelineStage(stage interface{}, redactFieldNames bool, keyPath []str
 									if arr, ok := subV.([]any); ok {
 										isSelectivelyRedactable := isRedactableFieldPatternInArray(arr)
 										newSubMap.Set(subK, redactArrayValues(arr, redactFieldNames, inSearchStage, isSelectivelyRedactable, newKeyPath))
-									} else {
+									} else if _, isKeyword := subV.(string); isKeyword {
 										newSubMap.Set(subK, subV)
+									} else {
+										// neither a pipeline nor a keyword: redact it below
+										break
 									}
 									continue
 								}
